@@ -27,6 +27,9 @@ def _traj():
 AREA = np.array([[1.0, 2.0, 4.0, 8.0, 16.0], [32.0, 64.0, 128.0, 256.0, 512.0]], dtype=np.float32)
 
 
+_TABLE0 = dict(_sasa._ATOMIC_RADII)          # the documented default radii, captured before any call
+
+
 class _Kernel:
     def __init__(self):
         self.calls = []
@@ -64,7 +67,9 @@ def bookkeeping(residue_mode: bool, use_idx: bool, k0: bool, k1: bool, k2: bool,
     c = k.calls[0]
     sel = list(range(N_ATOMS)) if idx is None else idx
     # radii = table value (or override) + probe, per atom, in atom order
-    table = dict(_sasa._ATOMIC_RADII)
+    if dict(_sasa._ATOMIC_RADII) != _TABLE0:     # change_radii must not outlive the call it was passed to
+        return False
+    table = dict(_TABLE0)
     if override:
         table["C"] = 0.5
     want_r = np.array([table[e.symbol] for e in ELEMS], dtype=np.float32) + probe
